@@ -218,7 +218,13 @@ namespace bloch::runtime {
     // REFACTOR: Split this monolith into a Visitor-based expression evaluator +
     // Strategy pluggable backend (statevector, hardware, mock) to isolate GC,
     // qubit bookkeeping, and execution policy; current single class is ~god object.
+#ifdef BLOCH_VERIF
+    struct VerifAccess;  // defined by the verification harness; read-only inspection
+#endif
     class RuntimeEvaluator {
+#ifdef BLOCH_VERIF
+        friend struct VerifAccess;
+#endif
        public:
         explicit RuntimeEvaluator(bool collectQasmLog = true) : m_collectQasmLog(collectQasmLog) {}
         ~RuntimeEvaluator();
